@@ -59,7 +59,9 @@ impl RecvRateSet {
             is_initial: false
         });
 
-        self.entries.retain(|e| now_ms - e.timestamp_ms < 2 * rtt_ms);
+        // Delete entries older than two round-trip times (RFC 5348 section 4.3). The entry just
+        // added has age zero and must survive, also when the RTT estimate is 0 ms.
+        self.entries.retain(|e| now_ms - e.timestamp_ms <= 2 * rtt_ms);
 
         return self.max();
     }
